@@ -11,7 +11,7 @@ namespace etl::chrono {
 
 /// \ingroup chrono
 template <typename To, typename Rep, typename Period>
-    requires(detail::is_duration_v<To>)
+    requires(detail::is_duration_v<To> and not treat_as_floating_point_v<typename To::rep>)
 [[nodiscard]] constexpr auto round(duration<Rep, Period> const& dur)
     noexcept(is_arithmetic_v<Rep> and is_arithmetic_v<typename To::rep>) -> To
 {
@@ -30,7 +30,7 @@ template <typename To, typename Rep, typename Period>
 
 /// \ingroup chrono
 template <typename To, typename Clock, typename Duration>
-    requires(detail::is_duration_v<To>)
+    requires(detail::is_duration_v<To> and not treat_as_floating_point_v<typename To::rep>)
 [[nodiscard]] constexpr auto round(time_point<Clock, Duration> const& tp) -> time_point<Clock, To>
 {
     return time_point<Clock, To>{round<To>(tp.time_since_epoch())};
